@@ -86,6 +86,7 @@ def run(ctx):
                 "Distinct = SHA-1 of (op, answer).",
         "samples": samples, "kind_histogram": hist, "differences": diffs,
         "traces_validated_against_impl": lines,
+        "device_files_checked_for_tiling_by_index": sum(1 for o in outs for op in o.get("ops", []) if op.startswith("fmt repfile") or op.startswith("fmt reptiled")),
     })
     # legacy-format devices opened read-write keep their own record layout: extent arithmetic of the writer on v1 / v2
     # devices (standing invariants of the kv harness, findings tagged C10)
